@@ -593,6 +593,16 @@ Section P.
     - split; [discriminate | intros (p' & x' & H1 & _); discriminate].
   Qed.
 
+  (* a term on a default field: the field holds a string and the word regex matches it *)
+  Theorem leaf_default_term s v e :
+    s_equals v e (FDefault s) = true <->
+    exists p b, parse_value_path s = PPOk p /\ get e p = Some (VBytes b) /\ word_match (pat_of v) b = true.
+  Proof.
+    unfold DdMatch.s_equals. rewrite on_addr_iff. cbn [lookup_field]. split.
+    - intros (p & x & H1 & H2 & H3). destruct x; try discriminate. exists p, b. auto.
+    - intros (p & b & H1 & H2 & H3). exists p, (VBytes b). auto.
+  Qed.
+
   (* a tag term `tag:v`: the element "tag:v" is in the `tags` array *)
   Theorem leaf_tag_equals tag v e :
     s_equals v e (FTag tag) = true <->
@@ -718,3 +728,104 @@ Section P.
     destruct x; try reflexivity. cbn [DdMatch.run_vm]. apply no_self_element.
   Qed.
 End P.
+
+(* ---------- word_match = the declarative "matches between two word boundaries" ---------- *)
+
+(* the last byte of l, or prev when l is empty *)
+Definition last_or (prev : option N) (l : bytes) : option N :=
+  match rev l with x :: _ => Some x | [] => prev end.
+
+Lemma last_or_nil prev : last_or prev [] = prev.
+Proof. reflexivity. Qed.
+
+Lemma last_or_cons prev x l : last_or prev (x :: l) = last_or (Some x) l.
+Proof.
+  unfold last_or. cbn [rev]. destruct (rev l) as [|y r] eqn:E; reflexivity.
+Qed.
+
+Lemma last_or_app prev a b : last_or prev (a ++ b) = last_or (last_or prev a) b.
+Proof.
+  revert prev; induction a as [|x a IH]; intros prev; [reflexivity|].
+  cbn [app]. rewrite !last_or_cons. apply IH.
+Qed.
+
+Lemma wglob_star_unfold p prev s :
+  wglob (PStar :: p) prev s =
+  wglob p prev s || match s with x :: s' => negb (x =? 10)%N && wglob (PStar :: p) (Some x) s' | [] => false end.
+Proof. destruct s; reflexivity. Qed.
+
+Lemma wglob_star_iff p : forall s prev,
+  wglob (PStar :: p) prev s = true <->
+  exists s1 s2, s = s1 ++ s2 /\ ~ In 10%N s1 /\ wglob p (last_or prev s1) s2 = true.
+Proof.
+  induction s as [|x s IH]; intros prev; rewrite wglob_star_unfold.
+  - rewrite orb_false_r. split.
+    + intros H. exists [], []. repeat split; auto.
+    + intros (s1 & s2 & H & _ & G). destruct s1; [|discriminate]. destruct s2; [|discriminate]. exact G.
+  - rewrite orb_true_iff, andb_true_iff, negb_true_iff, N.eqb_neq, IH. split.
+    + intros [G | [Hx (s1 & s2 & -> & Hn & G)]].
+      * exists [], (x :: s). repeat split; auto.
+      * exists (x :: s1), s2. rewrite last_or_cons. repeat split; auto. intros [H|H]; [congruence | contradiction].
+    + intros (s1 & s2 & H & Hn & G). destruct s1 as [|y s1].
+      * left. cbn in H. subst. exact G.
+      * right. inversion H; subst. rewrite last_or_cons in G. split.
+        -- intros ->. apply Hn; left; reflexivity.
+        -- exists s1, s2. repeat split; auto. intros Hi; apply Hn; right; exact Hi.
+Qed.
+
+Lemma wglob_iff w : forall prev s,
+  wglob (pat_of w) prev s = true <->
+  exists mid post, s = mid ++ post /\ gmatch w mid /\ wb (last_or prev mid) post = true.
+Proof.
+  induction w as [|c w IH]; intros prev s.
+  - cbn [pat_of map wglob]. split.
+    + intros H. exists [], s. repeat split; auto. constructor.
+    + intros (mid & post & -> & G & H). inversion G; subst. exact H.
+  - change (pat_of (c :: w)) with ((if (c =? 42)%N then PStar else PLit c) :: pat_of w).
+    destruct (N.eqb_spec c 42) as [->|Hc].
+    + rewrite wglob_star_iff. split.
+      * intros (s1 & s2 & -> & Hn & G). apply IH in G as (mid & post & -> & Gm & Hb).
+        exists (s1 ++ mid), post. rewrite <- app_assoc, last_or_app. repeat split; auto. constructor; auto.
+      * intros (mid & post & -> & G & Hb). inversion G; subst; [congruence|].
+        exists s1, (s2 ++ post). rewrite <- app_assoc. repeat split; auto.
+        apply IH. exists s2, post. rewrite <- last_or_app. auto.
+    + cbn [wglob]. destruct s as [|x s].
+      * split; [discriminate|]. intros (mid & post & H & G & _). inversion G; subst; [|congruence]. discriminate.
+      * rewrite andb_true_iff, N.eqb_eq, IH. split.
+        -- intros [-> (mid & post & -> & G & Hb)]. exists (c :: mid), post. rewrite last_or_cons.
+           repeat split; auto. constructor; auto.
+        -- intros (mid & post & H & G & Hb). inversion G; subst; [|congruence]. inversion H; subst.
+           split; [reflexivity|]. exists s0, post. rewrite last_or_cons in Hb. auto.
+Qed.
+
+Lemma wsearch_iff p : forall s prev,
+  wsearch p prev s = true <->
+  exists pre rest, s = pre ++ rest /\ wb (last_or prev pre) rest = true /\ wglob p (last_or prev pre) rest = true.
+Proof.
+  induction s as [|x s IH]; intros prev.
+  - cbn [wsearch]. rewrite orb_false_r, andb_true_iff. split.
+    + intros [A B]. exists [], []. auto.
+    + intros (pre & rest & H & A & B). destruct pre; [|discriminate]. destruct rest; [|discriminate]. auto.
+  - cbn [wsearch]. rewrite orb_true_iff, andb_true_iff, IH. split.
+    + intros [[A B] | (pre & rest & -> & A & B)].
+      * exists [], (x :: s). auto.
+      * exists (x :: pre), rest. rewrite last_or_cons. auto.
+    + intros (pre & rest & H & A & B). destruct pre as [|y pre].
+      * left. cbn in H. subst. auto.
+      * right. inversion H; subst. rewrite last_or_cons in A, B. exists pre, rest. auto.
+Qed.
+
+(* a default-field term w matches the text s: some occurrence mid of the pattern (every `*` a run without
+   newline) with a word boundary on each side *)
+Theorem word_match_correct w s :
+  word_match (pat_of w) s = true <->
+  exists pre mid post, s = pre ++ mid ++ post /\ gmatch w mid /\
+                       wb (last_or None pre) (mid ++ post) = true /\
+                       wb (last_or (last_or None pre) mid) post = true.
+Proof.
+  unfold word_match. rewrite wsearch_iff. split.
+  - intros (pre & rest & -> & A & B). apply wglob_iff in B as (mid & post & -> & G & C).
+    exists pre, mid, post. auto.
+  - intros (pre & mid & post & -> & G & A & C). exists pre, (mid ++ post). repeat split; auto.
+    apply wglob_iff. exists mid, post. auto.
+Qed.
